@@ -167,7 +167,7 @@ theorem step_procEnd {v : Nat} (h : stepEvent p s (.procEnd v) = some s') :
     exact ⟨hc.1.1, hc.1.2, hc.2, by simpa using h.symm⟩
   · cases h
 
-theorem step_seal {v k : Nat} {x : Option Val} (h : stepEvent p s (.seal v k x) = some s') :
+theorem step_seal {v k : Nat} {x : Option Val} (h : stepEvent p s (.sealBy v k x) = some s') :
     ∃ d, p.g.Produces v k d ∧ s.sealed d = false ∧ 1 ≤ s.runnable v ∧ s.running = true ∧
     (x = vertexOut p.proc s.val v (p.g.vert v) k ∨ (s.fin.isSome = true ∧ x = none)) ∧ s' = sealData s d x := by
   simp only [stepEvent] at h
